@@ -25,6 +25,7 @@ import (
 	"verifmc/engine/ev"
 	"verifmc/engine/mapiter"
 	"verifmc/props/c01"
+	"verifmc/props/c22"
 )
 
 type jobCfg struct {
@@ -193,7 +194,7 @@ func goStatementsInX() []string {
 	return found
 }
 
-func checkC01(run *ev.Run) {
+func checkMapOrder(run *ev.Run, property string) {
 	quick := ev.Tier() != "thorough"
 	deadline := 150 * time.Second
 	if !quick {
@@ -210,6 +211,9 @@ func checkC01(run *ev.Run) {
 	if !quick {
 		histories = append(histories, "C02/b")
 	}
+	if property == "C22" {
+		histories = []string{"C22/expand"}
+	}
 	nw := 16
 	workers := make([]*workerProc, nw)
 	for i := range workers {
@@ -223,10 +227,29 @@ func checkC01(run *ev.Run) {
 	}()
 	base := jobCfg{Hash0: 7, Ordinal: -1}
 	baselines := map[string]result{}
-	// baseline twice (determinism of the harness itself)
+	// baseline in every worker process (determinism of the harness itself and independence of per-process hashing)
 	for _, h := range histories {
 		r1, e1 := workers[0].call(job{ID: 1, History: h, Label: "baseline", Cfg: base, WantLog: true})
 		r2, e2 := workers[1].call(job{ID: 1, History: h, Label: "baseline-again", Cfg: base, WantLog: true})
+		// ... and in every other worker process too: each process has its own string-hash key, so layouts of maps
+		// with more than one bucket (which the harness does not own) differ between them
+		if e2 == nil && r2.Err == "" && r1.Digest == r2.Digest {
+			var bmu sync.Mutex
+			var bwg sync.WaitGroup
+			for wi := 2; wi < len(workers); wi++ {
+				bwg.Add(1)
+				go func(wi int) {
+					defer bwg.Done()
+					rk, ek := workers[wi].call(job{ID: 1, History: h, Label: "baseline-again", Cfg: base, WantLog: true})
+					bmu.Lock()
+					if ek == nil && rk.Err == "" && (rk.Digest != r1.Digest || rk.Total != r1.Total) {
+						r2 = rk
+					}
+					bmu.Unlock()
+				}(wi)
+			}
+			bwg.Wait()
+		}
 		if e1 != nil || e2 != nil || r1.Err != "" || r2.Err != "" {
 			run.Set("harness_error", fmt.Sprint("baseline failed: ", e1, e2, r1.Err, r2.Err))
 			run.Set("exhaustive", false)
@@ -236,11 +259,25 @@ func checkC01(run *ev.Run) {
 			return
 		}
 		if r1.Digest != r2.Digest || r1.Total != r2.Total {
-			run.Set("harness_error", "baseline is not reproducible under a fixed map order: "+h)
+			// two processes replayed the same history under the same controlled order (hash seed, start bucket,
+			// offset) and observed different results: the outcome depends on something that differs from run to run
+			// (for maps of more than 8 entries the per-process string hash decides the bucket layout, which the
+			// harness does not own) - that is exactly "not the same on every run"
+			idx := 0
+			for idx < len(r1.ItemHash) && idx < len(r2.ItemHash) && r1.ItemHash[idx] == r2.ItemHash[idx] {
+				idx++
+			}
+			what := "observation count differs"
+			if idx < len(r1.Items) && idx < len(r2.Items) {
+				what = "first differing observation #" + fmt.Sprint(idx) + ": " + trunc(r1.Items[idx]) + " vs " + trunc(r2.Items[idx])
+			}
+			run.Violate(ev.Violation{Property: property, Key: h + "/differs-between-two-processes", What: fmt.Sprintf("history %s replayed by two processes under the same controlled map order gives different observations: %s", h, what),
+				Replay: map[string]interface{}{"history": h, "label": "baseline", "cfg": base, "first_difference_index": idx}})
+			run.Set("baseline_not_reproducible", h)
 			run.Set("exhaustive", false)
-			run.Set("states", int64(1))
-			run.Set("transitions", int64(1))
-			run.Set("traces_validated_against_impl", int64(0))
+			run.Set("states", int64(2))
+			run.Set("transitions", int64(2))
+			run.Set("traces_validated_against_impl", int64(2))
 			return
 		}
 		baselines[h] = r1
@@ -273,7 +310,7 @@ func checkC01(run *ev.Run) {
 			}
 			lavaSites[h] = append(lavaSites[h], s)
 			offs := []uint64{1, 2, 3, 4, 5, 6, 7}
-			if quick && h != "H1" {
+			if quick && h != "H1" && h != "C22/expand" {
 				offs = []uint64{1, 3}
 			}
 			for _, k := range offs {
@@ -287,7 +324,7 @@ func checkC01(run *ev.Run) {
 			}
 		}
 		// dynamic instances (ordinals) of H1
-		if h == "H1" {
+		if h == "H1" || h == "C22/expand" {
 			nOrd := int64(64)
 			offs := []uint64{1, 2}
 			if !quick {
@@ -363,7 +400,7 @@ func checkC01(run *ev.Run) {
 					} else if strings.HasPrefix(key, "uniform-rotation") {
 						key = "uniform-rotation"
 					}
-					run.Violate(ev.Violation{Property: "C01", Key: j.History + "/" + key, What: fmt.Sprintf("history %s under map order '%s' diverges from the baseline order: %s", j.History, j.Label, what),
+					run.Violate(ev.Violation{Property: property, Key: j.History + "/" + key, What: fmt.Sprintf("history %s under map order '%s' diverges from the baseline order: %s", j.History, j.Label, what),
 						Replay: map[string]interface{}{"history": j.History, "label": j.Label, "cfg": j.Cfg, "first_difference_index": idx}})
 				}
 				mu.Unlock()
@@ -415,6 +452,10 @@ func trunc(s string) string {
 	return s
 }
 
+func init() {
+	c01.Histories["C22/expand"] = func() *c01.Obs { return &c01.Obs{Items: c22.MapOrderHistory()} }
+}
+
 func main() {
 	if len(os.Args) < 2 {
 		fmt.Println("usage: vmapiter check C01 | worker")
@@ -437,8 +478,12 @@ func main() {
 		}
 		fmt.Println("total multi-entry iterations:", r.Total, "err:", r.Err)
 	case "check":
-		run := ev.NewRun("C01", "model_checking")
-		checkC01(run)
+		property := "C01"
+		if len(os.Args) > 2 {
+			property = os.Args[2]
+		}
+		run := ev.NewRun(property, "model_checking")
+		checkMapOrder(run, property)
 		os.Exit(run.Finish())
 	}
 }
